@@ -27,7 +27,7 @@ var accepted = map[string][]string{
 	"C02": {"iter", "snapiter", "txiter", "panic"},
 	"C03": {"snapget", "snapiter", "iter", "txiter", "snap", "snap-unstable", "panic"},
 	"C04": {"open", "scan", "get", "iter", "snapget", "snapiter", "txget", "txiter", "write-err", "compact-err", "panic", "hang", "tx-open", "tx-commit"},
-	"C05": {"lin", "monotonic", "panic"},
+	"C05": {"lin", "monotonic", "txiter", "panic"},
 	"C06": {"lsm", "panic"},
 	"C07": {"remove-live", "read-removed", "files-residue", "space", "iter", "panic"},
 	"C08": {"get", "scan", "iter", "snapget", "snapiter", "txget", "txiter", "open", "panic"},
